@@ -142,8 +142,16 @@ def materialise(p: dict, root: Path, rnd: random.Random, outside: Path | None = 
             tgt.parent.mkdir(parents=True, exist_ok=True)
             tgt.write_text(header_text({"cop": ["SPDX-FileCopyrightText: 1999 Link Target"],
                                         "lic": [{"text": "MIT"}]}, rnd) + body)
-            if not path.exists():
+            if not path.exists() and not path.is_symlink():
                 os.symlink(tgt, path)
+                # one abstract class, three concrete shapes: a live link, a dangling one, a link to a directory
+                shape = sum(map(ord, "/".join(f["path"]))) % 3
+                if shape == 1:
+                    tgt.unlink()
+                elif shape == 2:
+                    tgt.unlink()
+                    tgt.mkdir()
+                    (tgt / f"inside-{abs(hash(tgt.name)) % 10**8}.py").write_text("print('reached through a link')\n")
         elif t == "binary":
             # tags inside binary content must not be read
             path.write_bytes(b"\x89BIN\x00\x01\x02\xff\xfe\nSPDX-License-Identifier: WTFPL\n"
